@@ -42,6 +42,14 @@ func (e *Eng) encodeFunction(fn *ssa.Function, con *Contract) (res *FnResult) {
 		res.NInst += len(b.Instrs)
 	}
 	f.ixWrap = con.EMatch
+	f.onWrite = func(w writeRec) {
+		w.Guard = f.curGuard
+		if w.Guard == "" {
+			w.Guard = "true"
+		}
+		f.writes = append(f.writes, w)
+		f.writePos = append(f.writePos, f.curPos)
+	}
 	// entry state
 	st := &State{locals: map[*ssa.Alloc][]string{}, heaps: map[string]string{}}
 	for _, so := range allClasses {
@@ -110,6 +118,8 @@ func (e *Eng) encodeFunction(fn *ssa.Function, con *Contract) (res *FnResult) {
 			return se
 		}
 		// ghost updates
+		f.curGuard = r.guard
+		f.curPos = r.pos
 		for _, g := range con.Ghost {
 			se := mkEnv()
 			a, t := se.addrOfIn(g.Target, true)
@@ -191,8 +201,16 @@ func (e *Eng) encodeFunction(fn *ssa.Function, con *Contract) (res *FnResult) {
 			}
 		}
 		if con.HasMod && !con.ModAll {
-			f.frameObligations(r.guard, f.st0, cur, rs, res.Key+"/frame"+suffix, r.pos)
+			f.mapFrameObligations(r.guard, f.st0, cur, rs, res.Key+"/frame"+suffix, r.pos)
 		}
+		// vacuity: this return site must be reachable (otherwise every
+		// obligation at it holds for the wrong reason)
+		if len(rets) > 1 && !con.Unreachable[ri+1] {
+			c.oblige(Item{Guard: r.guard, Formula: "false", Name: res.Key + "/canary:reachable" + suffix, Class: "canary", Expect: "sat", Pos: f.pos(r.pos), Text: "this return is reachable"})
+		}
+	}
+	if con.HasMod && !con.ModAll {
+		f.writeObligations(rs, res.Key)
 	}
 	// canary: some return must be reachable (else the assumptions are
 	// contradictory and every obligation above is vacuous)
